@@ -195,7 +195,7 @@ def _creation(ctx, prog):
         fs = A.cmp_facts(vi, c_.bb)
         ok = ok and A.has_fact(fs, ">=", r"^SwapActionParams::MAX_TOTAL_LENGTH$", END) and A.has_fact(fs, ">=", r"^\[T\]::len\(paths\)$", END)
     rng = sorted(str(c_.arg_expr(1)) for c_ in idxs)
-    ok = ok and rng == ["Range{start: primary_length, end: usize::saturating_add(primary_length, secondary_length)}", "RangeTo{end: primary_length}"]
+    ok = ok and set(rng) == {"Range{start: primary_length, end: usize::saturating_add(primary_length, secondary_length)}", "RangeTo{end: primary_length}"}
     ctx.ob("creation:validate_and_init:bounds", ok, "at both slice sites MAX_TOTAL_LENGTH >= end and paths.len() >= end hold; slices %s" % rng, where=vi.where())
     vps = [c_ for c_ in vi.calls if c_.short == "swap::validate_path"]
     ok = len(vps) == 2
@@ -347,16 +347,23 @@ def _pairing(ctx, prog):
         ins_ = [c for c in f.calls if c.short == "Bank::record_transferred_in_by_token"]
         movers = [c for c in f.calls if c.short in MOVERS]
         oks = sorted(f.ok_exit_blocks())
+        skip_edges = []
+        if label == "along_path":
+            # loop-carried: an iteration that follows a transfer-out has idx >= 1, so the `idx != 0` test cannot take its false edge
+            for sw in H.bool_switches(f, r"^\(Iterator::next\(Iterator::enumerate\(\[T\]::iter\(path\)\)\)@Some\.0\.0 Ne 0\)$"):
+                skip_edges.append((sw["bb"], sw["false"]))
         for i, o in enumerate(outs):
             recv = str(o.arg_expr(0))
             key = "pairing:%s:%d" % (label, i)
             n += 1
             args = [str(o.arg_expr(1)), str(o.arg_expr(2))]
-            start = H.ok_edge(f, o)
-            # candidate partner: the in-site that every path meets first
+            start = H.ok_edge2(f, o)
+            if start is None:
+                ctx.ob(key, False, "%s: the result of record_transferred_out_by_token on %s is not `?`-propagated" % (label, H.sx(recv, 80)), where=o.where())
+                continue
             partner = None
             for c in ins_:
-                r = f.reachable_from(start, avoid_blocks=[c.bb])
+                r = f.reachable_from(start, avoid_blocks=[c.bb], avoid_edges=skip_edges)
                 others = [m for m in movers if m is not c and m is not o and m.bb in r]
                 exits = [b for b in oks if b in r]
                 if c.bb in f.reachable_from(start) and not others and (not exits or label == "along_path"):
@@ -367,21 +374,22 @@ def _pairing(ctx, prog):
                 continue
             same = [str(partner.arg_expr(1)), str(partner.arg_expr(2))] == args and args == ["token_in", "token_in_amount"]
             diff = str(partner.arg_expr(0)) != recv or label == "along_path"
-            prop = H.propagated(f, o) and H.propagated(f, partner)
-            # validation of the paying market between out and in
-            between = f.reachable_from(start, avoid_blocks=[partner.bb])
+            prop = H.ok_edge2(f, partner) is not None
+            between = f.reachable_from(start, avoid_blocks=[partner.bb], avoid_edges=skip_edges)
             vals = [c for c in f.calls if c.bb in between and re.search(r"validate_market_balance", c.short) and str(c.arg_expr(0)) == recv]
             delayed = re.match(DELAYED_RECEIVER, recv) is not None
-            v_ok = (len(vals) >= 1 and H.must_pass(f, start, [partner.bb], [v.bb for v in vals]) and all(H.propagated(f, v) for v in vals)) or delayed
+            v_ok = delayed or (len(vals) >= 1 and all(H.ok_edge2(f, v) is not None for v in vals)
+                               and partner.bb not in f.reachable_from(start, avoid_blocks=[H.ok_edge2(f, v) for v in vals], avoid_edges=skip_edges))
             extra = ""
             g_ok = True
             if label == "along_path":
                 g_ok = H.guarded(f, o.bb, r"^\(Iterator::next\(Iterator::enumerate\(\[T\]::iter\(path\)\)\)@Some\.0\.0 Ne usize::saturating_sub\(\[T\]::len\(path\), 1\)\)$", True) \
                     and H.guarded(f, partner.bb, r"^\(Iterator::next\(Iterator::enumerate\(\[T\]::iter\(path\)\)\)@Some\.0\.0 Ne 0\)$", True)
                 sw = [c for c in f.calls if c.short == "SwapMarketMutExt::swap"]
-                g_ok = g_ok and len(sw) == 1 and f.dominates(partner.bb, sw[0].bb) is False and partner.bb in f.reachable_from(start) \
-                    and all(f.dominates(w["bb"], o.bb) for w in H.state_stores(f, r"^token_in"))
-                extra = "; out under idx != last, in under idx != 0, out after the running token/amount were advanced: %s" % g_ok
+                adv = H.state_stores(f, r"^token_in")
+                g_ok = g_ok and len(sw) == 1 and len(adv) == 2 and all(f.dominates(w["bb"], o.bb) for w in adv) \
+                    and sw[0].bb in f.reachable_from(H.ok_edge2(f, partner) or partner.bb) and str(partner.arg_expr(0)) == str(sw[0].arg_expr(0))
+                extra = "; out under idx != last and after token/amount were advanced, in under idx != 0 on the market about to be swapped in: %s" % g_ok
             ctx.ob(key, same and diff and prop and v_ok and g_ok,
                    "%s: out on %s -> next mover is in on %s with the same (token_in, token_in_amount): %s; different market: %s; both `?`: %s; paying market validated in between%s: %s%s" % (
                        label, H.sx(recv, 70), H.sx(partner.arg_expr(0), 70), same, diff, prop, " (current market: delayed, see delayed-validation)" if delayed else "", v_ok, extra),
@@ -394,35 +402,39 @@ def _delayed(ctx, prog):
     f = ctx.fn(SM + r"SwapMarkets::<'a, 'info>::revertible_swap")
     if f is None:
         return
-    paths = A.decision_table(f, max_paths=20000)
-    flag_locals = [i for i, l in enumerate(f.locals) if l[1] == "current_validated"]
-    tot = good = 0
-    bad = []
-    for p in paths:
-        if p["diverges"] or not A.feasible(p):
-            continue
-        r = p["ret"]
-        if r is None or not str(r).startswith("Result::Ok{"):
-            continue
-        # flag-sensitive feasibility: at each switch on the flag, the edge taken must agree with its last assignment on the path
-        feas = True
-        for i, bb in enumerate(p["blocks"][:-1]):
-            t = f.blocks[bb]["t"]
-            if t[0] == "switch" and isinstance(t[1], list) and len(t[1]) == 1 and t[1][0] in flag_locals:
-                v = str(f.expr_on_path(t[1], p["blocks"], i))
-                nxt = p["blocks"][i + 1]
-                took_false = any(int(val) == 0 and tgt == nxt for val, tgt in t[2])
-                if v in ("true", "false") and ((v == "true") == took_false):
-                    feas = False
-        if not feas:
-            continue
-        tot += 1
-        cur = [c for c in p["calls"] if re.search(r"validate_market_balances", c.short) and str(c.arg_expr(0)) == "SwapDirection::current_market(direction)"]
-        if cur:
-            good += 1
-        else:
-            bad.append(p["blocks"][-6:])
-    ctx.ob("delayed-validation:revertible_swap", tot > 0 and good == tot and len(paths) < 20000,
-           "%d acyclic flag-consistent Ok paths of revertible_swap, %d of them validate the current market's balances (validate_market_balances* on direction.current_market())%s" % (
-               tot, good, "; paths without: %s" % bad[:3] if bad else ""), where=f.where(), detail={"paths_enumerated": len(paths)})
+    flags = [i for i, l in enumerate(f.locals) if l[1] == "current_validated"]
+    if len(flags) != 1:
+        ctx.ob("delayed-validation:revertible_swap", False, "flag local `current_validated` not found (%d)" % len(flags), where=f.where())
+        return
+    F = flags[0]
+    CUR = "SwapDirection::current_market(direction)"
+    vals = [c for c in f.calls if re.search(r"validate_market_balances", c.short) and str(c.arg_expr(0)) == CUR]
+    sets_true, sets_false, other = [], [], []
+    for (bb, si, proj, rv) in f.defs().get(F, []):
+        e = f._rvalue_expr(rv, 0, ()) if not hasattr(rv, "bb") else None
+        sv = str(e)
+        (sets_true if sv == "true" else sets_false if sv == "false" else other).append(bb)
+    a = not other and len(sets_false) == 1 and len(sets_true) >= 1 and all(
+        any(H.ok_edge2(f, v) is not None and f.dominates(H.ok_edge2(f, v), bb) for v in vals) for bb in sets_true)
+    # the final test of the flag
+    sws = []
+    for i, b in enumerate(f.blocks):
+        t = b["t"]
+        if t[0] == "switch" and isinstance(t[1], list) and len(t[1]) == 1:
+            n_ = t[1][0]
+            ds = [d for d in f.defs().get(n_, []) if d[2] == ()]
+            if n_ == F or (len(ds) == 1 and isinstance(ds[0][3], list) and ds[0][3][0] == "use" and ds[0][3][1] == [F]):
+                f_t = [tgt for v, tgt in t[2] if int(v) == 0]
+                if f_t:
+                    sws.append((i, f_t[0], t[3]))
+    oks = sorted(f.ok_exit_blocks())
+    b_ok = len(sws) == 1 and bool(oks)
+    if b_ok:
+        sbb, f_t, t_t = sws[0]
+        final = [v for v in vals if v.short.endswith("::validate_market_balances") and [str(v.arg_expr(i)) for i in (1, 2)] == ["0", "0"] and f.dominates(f_t, v.bb)]
+        b_ok = len(final) == 1 and H.ok_edge2(f, final[0]) is not None and H.must_pass(f, f_t, oks, [H.ok_edge2(f, final[0])]) \
+            and all(f.dominates(sbb, x) for x in oks) and all(bb != sbb and sbb in f.reachable_from(bb) for bb in sets_true)
+    ctx.ob("delayed-validation:revertible_swap", a and b_ok,
+           "`current_validated` is set to true only behind the Ok edge of a balance validation of direction.current_market() (%d site(s): %s); every Ok exit is behind the final test of the flag, "
+           "whose false edge cannot reach Ok without validate_market_balances(current_market, 0, 0)?: %s" % (len(sets_true), a, b_ok), where=f.where())
     ctx.floor("delayed-validation", 1, 1)
